@@ -7,6 +7,7 @@ import Gengo.Driver.Writer
 import Gengo.Driver.Exec
 import Gengo.Driver.Order
 import Gengo.Driver.ImportBoss
+import Gengo.Driver.SetGen
 open Gengo Gengo.Proto
 
 /-- state of the stateful components (one history at a time per component) -/
@@ -15,6 +16,7 @@ structure DState where
   sw : Driver.Writer.St := {}
   ex : Driver.Exec.St := {}
   ib : Driver.ImportBoss.St := {}
+  set : Driver.SetGen.St := {}
 
 def dispatch (s : DState) (f : List Str) : DState × Str :=
   match f with
@@ -26,6 +28,9 @@ def dispatch (s : DState) (f : List Str) : DState × Str :=
     else if c = str "trk" then
       let (t, o) := Driver.Tracker.handle s.trk rest
       ({ s with trk := t }, o)
+    else if c = str "set" then
+      let (t, o) := Driver.SetGen.handle s.set rest
+      ({ s with set := t }, o)
     else if c = str "ib" then
       let (t, o) := Driver.ImportBoss.handle s.ib rest
       ({ s with ib := t }, o)
